@@ -602,10 +602,9 @@ fn deser_type_generic<'frame, 'result, StrT: Into<Cow<'result, str>>>(
                 .map_err(|err| CqlTypeParseError::UdtFieldsCountParseError(err.into()))?
                 .into();
 
-            // Each field occupies at least 4 bytes (name length and type id), so do not
-            // trust the declared count beyond what the rest of the buffer could hold.
-            let mut field_types: Vec<(Cow<'result, str>, ColumnType)> =
-                Vec::with_capacity(std::cmp::min(fields_size, buf.len() / 4));
+            // No pre-allocation based on the declared count: types nest, so even a capacity
+            // capped by the remaining buffer length would be reserved once per nesting level.
+            let mut field_types: Vec<(Cow<'result, str>, ColumnType)> = Vec::new();
 
             for _ in 0..fields_size {
                 let field_name =
@@ -628,8 +627,8 @@ fn deser_type_generic<'frame, 'result, StrT: Into<Cow<'result, str>>>(
             let len: usize = types::read_short(buf)
                 .map_err(|err| CqlTypeParseError::TupleLengthParseError(err.into()))?
                 .into();
-            // Each type occupies at least 2 bytes (type id).
-            let mut types = Vec::with_capacity(std::cmp::min(len, buf.len() / 2));
+            // No pre-allocation based on the declared count (see the UDT case above).
+            let mut types = Vec::new();
             for _ in 0..len {
                 types.push(deser_type_generic(
                     buf,
